@@ -96,7 +96,12 @@ class Prop:
               "pointers are derived in the model, so 'exactly one parent / once in the child list / not its own ancestor' hold there by "
               "construction; for the implementation they are established by the per-step observation of node.parent/children/tree and by the "
               "oracle.  The model describes the code as repaired by fixes/D01..D48; each repaired defect has a witness in mut.CORPUS that fails "
-              "on the unchanged code.  What is proved only partially is named *_partial in Properties/C01.v."),
+              "on the unchanged code.  What is proved only partially is named *_partial in Properties/C01.v.  "
+              "The theorems are about Machine.step/run; the cases evaluate CaseMut.step_chk/run_chk (step behind the liveness guard op_live); "
+              "C01_step_chk_live/_stale, C01_run_chk_is_run and C01_history_chk connect the two.  NOT covered by theorem or test: operations "
+              "issued through stale references (a removed node, a node of a cleared tree): the model answers EModel for all of them and the "
+              "generators never issue them (mut.NotLive), although the library accepts some (live.add(removed_node) inserts a node); 'any "
+              "sequence of public mutating operations' is therefore established for sequences whose references are live when used."),
         technique="Coq proof about an executable Gallina model + differential correspondence check (vm_compute) + Python oracle",
         design_ref="DESIGN.md section 6 (C01), 3.2, 3.4",
     )
@@ -214,3 +219,7 @@ import parts  # noqa: E402
 import parts_misc  # noqa: E402
 
 parts.attach(PROP, parts_misc.REMOVED, parts_misc.SELFCHECK)   # removed nodes are inert; Tree._self_check (models Forest/MiscRemoved.v, Mut/MiscSelfCheck.v; theorems at the end of Properties/C01.v)
+
+import mut_c01_nid  # noqa: E402
+
+parts.attach(PROP, mut_c01_nid.NID_PART)   # explicit node ids: add_child(node_id=) (model Mut/MachineNodeId.v; theorems at the end of Properties/C01.v)
